@@ -19,12 +19,14 @@ import (
 	"fmt"
 	"os"
 	"os/exec"
+	"os/signal"
 	"path/filepath"
 	"runtime"
 	"sort"
 	"strconv"
 	"strings"
 	"sync"
+	"syscall"
 	"time"
 )
 
@@ -115,6 +117,7 @@ type runFlags struct {
 	corpus  string
 	workers int
 	tables  string
+	tmproot string
 }
 
 func parseFlags(args []string) *runFlags {
@@ -132,6 +135,7 @@ func parseFlags(args []string) *runFlags {
 	fs.StringVar(&f.corpus, "corpus", "", "")
 	fs.IntVar(&f.workers, "workers", 0, "")
 	fs.StringVar(&f.tables, "tables", "", "")
+	fs.StringVar(&f.tmproot, "tmproot", "", "")
 	if len(args) < 1 {
 		fmt.Fprintln(os.Stderr, "missing property id")
 		os.Exit(2)
@@ -202,7 +206,9 @@ func cmdWorker(args []string) int {
 		return 2
 	}
 	defer drv.Close()
-	tmp, _ := os.MkdirTemp("", "klogv-"+f.prop+"-")
+	// scratch directory: inside the orchestrator's root, which the orchestrator removes even when
+	// this process dies in a case (a panic of the implementation skips the deferred removal)
+	tmp, _ := os.MkdirTemp(f.tmproot, "klogv-"+f.prop+"-")
 	defer os.RemoveAll(tmp)
 	env := &Env{Drv: drv, TmpDir: tmp, Seed: f.seed, Tier: f.tier, PropID: f.prop}
 
@@ -318,6 +324,15 @@ func cmdRun(args []string) int {
 	var mu sync.Mutex
 	var wg sync.WaitGroup
 	self, _ := os.Executable()
+	tmproot, _ := os.MkdirTemp("", "klogv-run-"+f.prop+"-")
+	defer os.RemoveAll(tmproot)
+	sigc := make(chan os.Signal, 1)
+	signal.Notify(sigc, os.Interrupt, syscall.SIGTERM)
+	go func() {
+		<-sigc
+		os.RemoveAll(tmproot)
+		os.Exit(130)
+	}()
 	add := func(k int, o *Outcome) {
 		mu.Lock()
 		defer mu.Unlock()
@@ -342,7 +357,7 @@ func cmdRun(args []string) int {
 			for attempt := 0; attempt < 200; attempt++ {
 				wargs := []string{"worker", f.prop, "-tier", f.tier, "-seed", strconv.FormatInt(f.seed, 10), "-driver", f.driver,
 					"-budget", fmt.Sprint(f.budget), "-shard", fmt.Sprintf("%d/%d", w, nw), "-from", strconv.Itoa(from),
-					"-corpus", f.corpus, "-tables", f.tables}
+					"-corpus", f.corpus, "-tables", f.tables, "-tmproot", tmproot}
 				if f.replay != "" {
 					wargs = append(wargs, "-replay", f.replay)
 				}
